@@ -63,16 +63,12 @@ theorem storyLevel_edit (k : Kind) (rc base : Xml) (mid : Option PyExc)
     simp only [mergeRc]
     split
     · exact Edit.refl _ _ _
-    · split
-      · exact Edit.refl _ _ _
-      · exact edit_insertDedup _ _ _ _ _ _ _ _ (fun _ h => mem_findall_tag h) (fun _ h => h)
+    · exact edit_insertDedup _ _ _ _ _ _ _ _ (fun _ h => mem_findall_tag h) (fun _ h => h)
   case EAStoryInsert =>
     simp only [mergeRc, elemsOf_getD]
     split
     · exact Edit.refl _ _ _
-    · split
-      · exact Edit.refl _ _ _
-      · exact edit_insertDedup _ _ _ _ _ _ _ _ (fun _ h => mem_elemsOf_tag h) (fun _ h => h)
+    · exact edit_insertDedup _ _ _ _ _ _ _ _ (fun _ h => mem_elemsOf_tag h) (fun _ h => h)
   case StoryReplace =>
     simp only [mergeRc]
     rw [findRequired_ok _ _ _ _]
